@@ -179,3 +179,35 @@ contract('run_games', heap=list(FIELDS), externals={'copy.deepcopy': ext_deepcop
                              # keys present so far are exactly those of the processed games
                              f"forall(k, 'str', implies(ohas(game_results, k), exists(a, 0, _i, k == {KEYS}[a] or k == {KEYS}[a] + '_no_prune')))"])},
          props=['C12', 'C09'])
+
+
+# ------------------------------------------------------------------ main (C16, C12): the wiring of the command line
+# `python conditionalrewards.py -f X [-s]` reads X, runs the batch on what it read, and -- exactly when -s is given -- saves THAT
+# result under X's name. The three functions are summarised (their own contracts are above); what is proved here is which
+# value flows where, and that nothing is saved without -s. `saved*` are ghost fields of the parsed-arguments object.
+CARGS = REF('CArgs')
+FIELDS.update({'file': STR, 'log_level': VAL, 'save_results': BOOL, 'saved': BOOL, 'saved_path': STR, 'saved_results': VAL})
+READ = spec('READ', [STR], VAL)        # what read_dict_from_file returns for a path
+RUN = spec('RUN', [VAL], VAL)          # what run_games returns for a dictionary of games
+contract('init_parser', external=True, params={}, result=REF('CParser'), requires=[], ensures=[], modifies={}, props=[])
+contract('CParser.parse_args', external=True, heap=['file', 'log_level', 'save_results', 'saved', 'saved_path', 'saved_results'],
+         params={'self': REF('CParser')}, result=CARGS, requires=[], ensures=["not result.saved"], modifies={}, props=[])
+contract('set_logger', external_for_main=True, params={'level': VAL}, requires=[], ensures=[], modifies={}, props=[])
+contract('M.read', external=True, params={'file_name': STR}, result=VAL, requires=[], ensures=["result == READ(file_name)"], modifies={},
+         raises=dict(exc=['ValueError'], when=[], ensures=[]), props=[])
+contract('M.run', external=True, params={'games_dict': VAL}, result=VAL, requires=[], ensures=["result == RUN(games_dict)"], modifies={}, props=[])
+contract('M.save', external=True, heap=['saved', 'saved_path', 'saved_results'],
+         params={'game_resuts': VAL, 'file_name': STR, 'who': CARGS}, ghost_params={'who': 'parsed_args'},
+         requires=[], ensures=["who.saved", "who.saved_path == file_name", "who.saved_results == game_resuts"],
+         modifies={'saved': ['who'], 'saved_path': ['who'], 'saved_results': ['who']}, props=[])
+contract('main', heap=['file', 'log_level', 'save_results', 'saved', 'saved_path', 'saved_results'],
+         class_module={'CParser': 'conditionalrewards', 'CArgs': 'conditionalrewards'},
+         callee_contracts={'read_dict_from_file': 'conditionalrewards.M.read', 'run_games': 'conditionalrewards.M.run', 'save_results_to_file': 'conditionalrewards.M.save',
+                           'CParser.parse_args': 'conditionalrewards.CParser.parse_args'},
+         params={}, locals={'parser': REF('CParser'), 'parsed_args': CARGS, 'my_dict': VAL, 'game_results': VAL},
+         requires=[], modifies={'saved': 'all', 'saved_path': 'all', 'saved_results': 'all'},      # ghost fields only
+         ensures=["implies(parsed_args.save_results, parsed_args.saved and parsed_args.saved_path == parsed_args.file"
+                  " and parsed_args.saved_results == RUN(READ(parsed_args.file)))",
+                  "implies(not parsed_args.save_results, not parsed_args.saved)"],
+         raises=dict(exc=['ValueError'], when=[], ensures=["not parsed_args.saved"]),      # an input file that is not a dictionary: nothing is saved
+         props=['C16', 'C12'])
